@@ -476,7 +476,224 @@ class Decomp(Suite):
         return f"root-children={min(nk0, 3)}{'+' if nk0 > 3 else ''}"
 
 
-SUITES = [Decomp()]
+# ---------------------------------------------------------------------------------------------------------------------------------
+# "… and REMEMBERS each original branch's points": a multi-step family with state carried between calls.  The branch tree is built,
+# THEN the caller goes on working with the source tree in place (public: tree.ndata[col], the array a column getter hands out, the
+# Node setters), THEN the remembered branches are read.  What is remembered are the points the branches had when the branch tree
+# was built; they must still join the branch tree's own nodes.
+
+EDIT_OPS = ["shift-column", "scale-column", "rebind-column", "through-getter", "node-setter", "recentre-on-root", "several"]
+BUILDERS = ["BranchTree.from_tree", "ToBranchTree"]
+SOURCES = ["tree", "sorted-tree", "branch-tree"]          # the source tree itself: as constructed / out of sort_tree / a BranchTree (it IS a Tree)
+
+
+def draw_edit(rng, op):
+    """one in-place edit of the source tree, as JSON steps; amounts are small dyadic numbers (exact in float32 on the lattice inputs)"""
+    col = lambda: rng.choice(["x", "y", "z"])
+    amt = lambda: rng.choice([-1, 1]) * rng.choice([0.5, 1.0, 2.0, 3.0, 7.0, 16.0, 40.0])
+    if op == "shift-column":
+        return [{"op": "shift", "col": col(), "d": amt()}]
+    if op == "scale-column":                              # a scaling leaves a column of zeros alone: always together with a shift of the same column
+        c = col()
+        return [{"op": "shift", "col": c, "d": amt()}, {"op": "scale", "col": c, "f": rng.choice([2.0, -1.0, 0.5, 4.0])}]
+    if op == "rebind-column":
+        return [{"op": "rebind", "col": col(), "d": amt()}]
+    if op == "through-getter":
+        return [{"op": "getter", "col": col(), "d": amt()}]
+    if op == "node-setter":
+        return [{"op": "node", "i": rng.randrange(10 ** 6), "col": col(), "d": amt()} for _ in range(rng.randint(1, 3))]
+    if op == "recentre-on-root":                          # "centre on the soma"; the root may sit at the origin already: then moved first
+        return [{"op": "shift", "col": col(), "d": amt()}, {"op": "recentre"}]
+    return [s for o in rng.sample(EDIT_OPS[:-1], rng.randint(2, 3)) for s in draw_edit(rng, o)]
+
+
+def apply_edit(t, steps):
+    """the edit on the real tree, through public members only"""
+    for s in steps:
+        if s["op"] == "recentre":
+            x0, y0, z0 = (float(v) for v in t.xyz()[0])
+            t.ndata["x"] -= np.float32(x0); t.ndata["y"] -= np.float32(y0); t.ndata["z"] -= np.float32(z0)
+        elif s["op"] == "shift":
+            t.ndata[s["col"]] += np.float32(s["d"])
+        elif s["op"] == "scale":
+            t.ndata[s["col"]] *= np.float32(s["f"])
+        elif s["op"] == "rebind":
+            t.ndata[s["col"]] = t.ndata[s["col"]] + np.float32(s["d"])
+        elif s["op"] == "getter":
+            a = getattr(t, s["col"])()
+            a += np.float32(s["d"])
+        else:
+            nd = t.node(s["i"] % t.number_of_nodes())
+            setattr(nd, s["col"], float(getattr(nd, s["col"])) + s["d"])
+
+
+def edit_points(xyz, steps):
+    """the same edit on a plain table of points (float32 arithmetic, nothing of the library)"""
+    P = np.array(xyz, dtype=np.float32).reshape(-1, 3)
+    ci = {"x": 0, "y": 1, "z": 2}
+    for s in steps:
+        if s["op"] == "recentre":
+            P = P - P[0].copy()
+        elif s["op"] in ("shift", "rebind", "getter"):
+            P[:, ci[s["col"]]] += np.float32(s["d"])
+        elif s["op"] == "scale":
+            P[:, ci[s["col"]]] *= np.float32(s["f"])
+        else:
+            P[s["i"] % len(P), ci[s["col"]]] += np.float32(s["d"])
+    return P.astype(float).tolist()
+
+
+def pts(b):
+    return [[float(c) for c in row] for row in np.asarray(b.xyz()).reshape(-1, 3)]
+
+
+class Remember(Suite):
+    name = "c08.remember"
+
+    def cases(self, rng, tier, widen):
+        out = []
+        reps = 2 if tier == "quick" and not widen else 8
+        pool = [n for n in gen.sizes(tier, widen) if n <= 120]
+        k = rng.randrange(len(gen.SHAPES))
+        named = [[-1], [-1, 0], [-1, 0, 1, 2, 3], [-1, 0, 0], [-1, 0, 0, 0], [-1, 0, 1, 1], [-1, 0, 1, 1, 3, 3]]      # the shapes the property names
+        for op in EDIT_OPS + ["untouched"]:
+            for j in range(reps + len(named) // 3):
+                if j < reps:
+                    shape = gen.pick_shape(rng, k); k += 1
+                    t = gen.tree_case(rng, rng.choice(pool), shape, numbering=rng.choice(["sorted", "root0"]), coords="lattice", types=rng.choice(["mixed", "anyroot"]))
+                else:
+                    pids = rng.choice(named); n = len(pids)
+                    t = {"class": "named", "n": n, "pids": pids, "types": [rng.choice([1, 3])] + [3] * (n - 1),
+                         "xyz": [[float(i), float((i * i) % 5), float(i % 2)] for i in range(n)], "r": [1.0] * n}
+                steps = [] if op == "untouched" else draw_edit(rng, op)
+                src = rng.choice(SOURCES) if t["n"] >= 3 and rng.random() < 0.4 else "tree"
+                fam = "source-untouched" if op == "untouched" else f"source-edited-after-build/{op}"
+                out.append({"class": f"{fam}/{t['class']}", "family": fam, "tree": t, "source": src, "builder": rng.choice(BUILDERS),
+                            "edit": steps, "rebuild": rng.random() < 0.5})
+        return out
+
+    def run(self, case):
+        from swcgeom.core import BranchTree
+        from swcgeom.core.tree_utils import sort_tree
+        from swcgeom.transforms import ToBranchTree
+
+        res = {}
+        stage = "building the source tree"
+        try:
+            t = gen.make_tree(case["tree"])
+            if case["source"] == "sorted-tree":
+                t = sort_tree(t)
+            elif case["source"] == "branch-tree":
+                t = BranchTree.from_tree(t)
+            res["pids_eff"] = [int(p) for p in t.pid()]
+            res["xyz_eff"] = t.xyz().astype(float).tolist()
+            build = BranchTree.from_tree if case["builder"] == "BranchTree.from_tree" else ToBranchTree()
+            read = lambda bt: {"pid": [int(p) for p in bt.pid()], "xyz": bt.xyz().astype(float).tolist(),
+                               "origin": [pts(b) for b in bt.get_origin_branches()],
+                               "by_node": {str(k): [pts(b) for b in bt.get_origin_node_branches(k)] for k in sorted(bt.branches.keys())},
+                               "attr": {str(k): [pts(b) for b in v] for k, v in sorted(bt.branches.items())}}
+            with warnings.catch_warnings():
+                warnings.simplefilter("ignore")
+                stage = f"{case['builder']}"
+                bt = build(t)
+                stage = "reading the remembered branches right after construction"
+                res["first"] = read(bt)
+                held = bt.get_origin_branches()                 # branch objects the caller keeps
+                stage = "editing the source tree in place"
+                apply_edit(t, case["edit"])
+                res["xyz_src_after"] = t.xyz().astype(float).tolist()
+                stage = "reading the remembered branches after the source tree was edited"
+                res["later"] = read(bt)
+                res["held"] = [pts(b) for b in held]
+                if case.get("rebuild"):
+                    stage = f"{case['builder']} on the edited source tree"
+                    bt2 = build(t)
+                    res["second"] = read(bt2)
+                    res["later_again"] = read(bt)               # … and the first branch tree once more, now that a second one exists
+        except Exception as e:  # noqa: BLE001 - every step is a public call the property covers (or a plain in-place edit of a column)
+            return {"exc": type(e).__name__, "msg": f"{stage} raised: {str(e)[:160]}", "stage": stage}
+        return res
+
+    def oracle(self, case, res):
+        try:
+            return self._oracle(case, res)
+        except Exception as e:  # noqa: BLE001
+            return [("malformed-output", f"pids={case['tree']['pids'] if case['tree']['n'] <= 40 else '…'}: the outputs cannot be judged ({type(e).__name__}: {str(e)[:160]})")]
+
+    @staticmethod
+    def judge(pids, xyz, rd, when):
+        """the branch-tree clauses of the property on one read-out `rd`, against the tree (pids, xyz) the branch tree was built from"""
+        n = len(pids)
+        kids = kids_of(pids)
+        nk = lambda i: len(kids.get(i, []))
+        P = lambda i: tuple(float(c) for c in xyz[i])
+        want = []                                           # the branches, bottom-up from every tip / furcation (independent of get_branches)
+        for i in range(1, n):
+            if nk(i) != 1:
+                b, j = [i], pids[i]
+                while j != 0 and nk(j) == 1:
+                    b.append(j); j = pids[j]
+                b.append(j)
+                want.append(tuple(P(v) for v in reversed(b)))
+        want.sort()
+        tup = lambda bs: sorted(tuple(tuple(float(c) for c in row) for row in b) for b in bs)
+        out = []
+        for how, got in (("get_origin_branches()", tup(rd["origin"])), ("get_origin_node_branches(k) over all k", tup(b for v in rd["by_node"].values() for b in v)),
+                         (".branches", tup(b for v in rd["attr"].values() for b in v))):
+            if got != want:
+                bad = [b for b in got if b not in want][:1]
+                out.append((f"branchtree-points{when[0]}", f"pids={pids if n <= 40 else '…'}: {when[1]} {how} gives {len(got)} branches that are not exactly the points of the "
+                                                          f"{len(want)} original branches (e.g. {bad[0][:3] if bad else 'one is missing'})"))
+                break
+        # the branch tree's own nodes: root, furcations and tips of the tree it was built from, and the remembered branches join them
+        nodes = sorted(P(i) for i in range(n) if i == 0 or nk(i) != 1)
+        if sorted(tuple(p) for p in rd["xyz"]) != nodes:
+            out.append((f"branchtree-nodes{when[0]}", f"pids={pids if n <= 40 else '…'}: {when[1]} the branch tree's nodes are not at the positions of root, furcations and tips of the tree it was built from"))
+        else:
+            ch = {}
+            for k_, p in enumerate(rd["pid"]):
+                ch.setdefault(p, []).append(tuple(rd["xyz"][k_]))
+            for k_, brs in rd["by_node"].items():
+                k_ = int(k_)
+                ends = sorted(tuple(b[-1]) for b in brs)
+                if any(tuple(b[0]) != tuple(rd["xyz"][k_]) for b in brs) or ends != sorted(ch.get(k_, [])):
+                    out.append((f"branchtree-points{when[0]}", f"pids={pids if n <= 40 else '…'}: {when[1]} the branches remembered at branch-tree node {k_} do not join it to its children"))
+                    break
+        return out
+
+    def _oracle(self, case, res):
+        if "exc" in res:
+            # building / reading the branch tree must succeed on every tree; the plain column edit and the source derivation are not C08's
+            st = str(res.get("stage", ""))
+            return [] if st.startswith(("building the source", "editing the source")) else [("branchtree-raises", f"{res['exc']}: {res.get('msg')}")]
+        pids, xyz0 = res["pids_eff"], res["xyz_eff"]
+        out = self.judge(pids, xyz0, res["first"], ("", "right after construction"))
+        edited = bool(case["edit"])
+        sfx = "/after-source-edit" if edited else "/read-again"
+        txt = "after the source tree was edited in place" if edited else "on the second reading"
+        out += self.judge(pids, xyz0, res["later"], (sfx, txt))
+        want_held = sorted(tuple(tuple(float(c) for c in r) for r in b) for b in res["first"]["origin"])
+        if sorted(tuple(tuple(float(c) for c in r) for r in b) for b in res["held"]) != want_held:
+            out.append((f"branchtree-points{sfx}", f"pids={pids if len(pids) <= 40 else '…'}: the branch objects handed out by get_origin_branches() changed their points {txt}"))
+        if "second" in res:
+            xyz1 = edit_points(xyz0, case["edit"])
+            if res["xyz_src_after"] == xyz1:                  # (the edit itself is not under test; the clause needs to know the source's points)
+                out += self.judge(pids, xyz1, res["second"], ("/second-branch-tree", "a branch tree built from the edited source tree:"))
+            out += self.judge(pids, xyz0, res["later_again"], (sfx, txt + ", with a second branch tree built,"))
+        seen, uniq = set(), []
+        for k_, m in out:
+            if k_ not in seen:
+                seen.add(k_); uniq.append((k_, m))
+        return uniq[:4]
+
+    def nontrivial(self, case, res):
+        return case["tree"]["n"] >= 3 and bool(case["edit"])
+
+    def klass(self, case, res):
+        return case.get("family", "-")
+
+
+SUITES = [Decomp(), Remember()]
 TECHNIQUE = "Lean 4 theorems by structural induction on Rose about the traversal callbacks of get_branches/get_paths/get_furcations (edge partition as a permutation, branch shape, one path per tip); Tree.get_branches / get_furcations / get_paths and their closures are TRANSLATED from tree.py on every run (harness/translate_algo.py → Gen/AlgoBranches.lean, running on the translated _traverse_dfs) and get_branches / get_furcations proved equal to the structural recursions of these theorems (RefineBranches.getBranches_refines, getFurcations_refines; closures of get_paths: callback-level equalities) + differential correspondence + direct oracle of the decomposition"
 LEVEL_TEXT = ("Kernel-checked for every tree shape: the branches returned by the model of get_branches (incl. the stem of a one-child root) list every "
               "parent–child edge exactly once, start at the root or a furcation, end at a furcation or tip and pass only through one-child nodes; one path per tip; "
